@@ -60,7 +60,7 @@ INF = float("inf")
 
 
 def budget(tier):
-    return int(os.environ.get("VERIF_BUDGET", 0)) or {"quick": 2000, "thorough": 15000}[tier]
+    return int(os.environ.get("VERIF_BUDGET", 0)) or {"quick": 1500, "thorough": 15000}[tier]
 
 
 # ================================================================== generation
